@@ -86,4 +86,13 @@ def trace (s : St) : List Op → List (Op × Ans)
   | [] => []
   | op :: ops => (op, (step s op).2) :: trace (step s op).1 ops
 
+/-- timer queue: repeated `timerqueue_getptr(Q, tv)` with nothing added in between; the released
+    `(record, pointer)` pairs in order -/
+def tqDrain (sec usec : Int) : Nat → TimerQueue.TQ → List (Nat × Nat)
+  | 0, _ => []
+  | fuel+1, q =>
+    match TimerQueue.getptr q sec usec with
+    | (q', some rp) => rp :: tqDrain sec usec fuel q'
+    | (_, none) => []
+
 end Percival.Model.HeapRun
